@@ -100,7 +100,7 @@ def run(report, db, tier):
             if (f0[0] == 'fn' and len(f0) > 2 and f0[2] and
                     f0[2][0] == 'cls' and f0[2][1] is not vl and
                     base.kind == 'class'):
-                first = base.params[0] if base.params else None
+                first = base.all_params[0] if base.params else None
                 reads = sorted({n.attr for n in ast.walk(base.node)
                                 if isinstance(n, ast.Attribute)
                                 and isinstance(n.value, ast.Name)
@@ -152,7 +152,7 @@ def run(report, db, tier):
                 if not (f0[0] == 'fn' and len(f0) > 2 and f0[2]
                         and f0[2][0] == 'cls' and f0[2][1] is not vl):
                     continue
-                first = base.params[0] if base.params else None
+                first = base.all_params[0] if base.params else None
                 for a in sorted({x.attr for x in ast.walk(base.node)
                                  if isinstance(x, ast.Attribute)
                                  and isinstance(x.value, ast.Name)
@@ -315,8 +315,8 @@ def check_read(report, db, S, vi, vl, rd, ref, consts):
     R2 = report.rule('R03.2', 'no stream read after the terminating byte')
     R3 = report.rule('R03.3', 'decoded number is assembled from non-negative '
                      'pieces only')
-    stream = sy(rd.params[1] if rd.kind in ('class', 'instance')
-                else rd.params[0])
+    stream = sy(rd.all_params[1] if rd.kind in ('class', 'instance')
+                else rd.all_params[0])
     for ci in (vi, vl):
         paths = S.run(rd, self_term=('cls', ci))
         loops = loops_of(paths)
@@ -338,8 +338,13 @@ def check_read(report, db, S, vi, vl, rd, ref, consts):
         prob1, prob2, prob3 = [], [], []
         # -- R03.1: one 1-byte read per iteration -----------------------------
         byte_terms = set()
+        def by_test(q):
+            """the loop test came out false: no iteration, the loop ends"""
+            return q.outcome == ('break', 'cond')
         for q in lp.paths:
             reads = [e for e in q.flat(('call',)) if is_raw(e)]
+            if by_test(q) and not reads:
+                continue
             if len(reads) != 1:
                 prob1.append(('read:count', 'an iteration performs %d '
                               'stream reads [%s]' % (len(reads),
@@ -360,6 +365,8 @@ def check_read(report, db, S, vi, vl, rd, ref, consts):
         cont_mask = None
         for q in lp.paths:
             oc = q.outcome[0]
+            if by_test(q):
+                continue
             bt = None
             for a, pol, _ in q.conds:
                 b = bit_test(a, pol)
@@ -413,6 +420,13 @@ def check_read(report, db, S, vi, vl, rd, ref, consts):
                     # n < c / -k  (strict)  or  n <= c / -k
                     m = -k
                     u = (c - 1) // m if strict else c // m
+                    # a guard decided before the iteration's read keeps the
+                    # read itself from happening: one read fewer
+                    rds = [e for e in q.flat(('call',)) if is_raw(e)]
+                    idx = [i for i, (a2, _, _) in enumerate(q.conds)
+                           if a2 is a][0]
+                    if rds and idx < rds[0].nconds - lp.nconds:
+                        u -= 1
                     bound = u if bound is None else min(bound, u)
         if ri is not None and ri[2] is not None:
             reads_max = ri[2]
@@ -430,6 +444,17 @@ def check_read(report, db, S, vi, vl, rd, ref, consts):
                           'reads before it gives up; the protocol allows %d '
                           'bytes (the decoder tolerates one more)'
                           % (ci.name, reads_max, nominal)))
+        # running out of iterations is the over-long encoding: it raises
+        endless = lp.ctx[0] == 'call' and lp.ctx[1] == (
+            'ext', 'itertools.count')
+        for p in paths:
+            if not endless and p.returns and any(
+                    nt[0] == 'exhausted' and nt[1] is lp.node
+                    for nt in p.notes):
+                prob1.append(('read:exhausted', 'when the loop runs out of '
+                              'iterations the function returns normally: an '
+                              'over-long encoding is accepted instead of '
+                              'refused'))
         # after the loop nothing is read
         for p in paths:
             seen_loop = False
@@ -576,7 +601,7 @@ def check_send(report, db, S, sd, consts):
                      'only update value >>= k, and value >= 0 is established '
                      'before the loop')
     paths = S.run(sd)
-    vparam = sy(sd.params[0])
+    vparam = sy(sd.all_params[0])
     loops = loops_of(paths)
     if len(loops) != 1:
         raise AnalysisError('VarInt.send: expected exactly one loop, found '
@@ -776,14 +801,16 @@ def check_constants(report, db, F, S, basic, rd, sd, sz, ref, consts):
                          'VARINT_SIZE_TABLE', 'size table has only %d rows; '
                          'VarLong needs 10' % len(keys))
     # size(): first key strictly above the value, in table order
-    vparam = sy(sz.params[0])
+    vparam = sy(sz.all_params[0])
     okk = False
     for p in S.run(sz):
         for lp in [e for e in p.events if e.kind == 'loop']:
             it = lp.ctx
+            lit = ('tuple', tuple(('tuple', (('const', k), ('const', v)))
+                                  for k, v in tbl.items()))
             if not (it[0] == 'call' and it[1][0] == 'attr'
                     and it[1][2] == 'items'
-                    and it[1][1][0] in ('glob', 'dict')):
+                    and it[1][1][0] in ('glob', 'dict')) and it != lit:
                 continue
             for q in lp.paths:
                 if q.outcome[0] != 'return':
@@ -825,6 +852,27 @@ def check_constants(report, db, F, S, basic, rd, sd, sz, ref, consts):
                                 elts[1][0][1][0][0] == 'op' and \
                                 elts[1][0][1][0][2][1] == ('const', 1):
                             okk = True
+    if not okk:
+        # the table folded to its literal and the search was unrolled: the
+        # paths are "not below any earlier key, below this one -> its size"
+        rows = []
+        shape = True
+        for p in S.run(sz):
+            if not p.returns:
+                continue
+            tests = [(a, pol) for a, pol, _ in p.conds]
+            if not tests or not all(
+                    a[1] == '<' and struct(a[2][0]) == vparam and
+                    is_const(a[2][1]) for a, _ in tests) or \
+                    [pol for _, pol in tests] != [False] * (
+                        len(tests) - 1) + [True] or \
+                    not (p.value is not None and is_const(p.value)):
+                shape = False
+                break
+            rows.append((tuple(a[2][1][1] for a, _ in tests), p.value[1]))
+        want = [(tuple(keys[:i + 1]), tbl[k]) for i, k in enumerate(keys)]
+        if shape and sorted(rows) == sorted(want):
+            okk = True
     if okk:
         report.ok(R5, 'size(): first table key strictly above the value')
     else:
